@@ -8,7 +8,8 @@ enabled in the model (trace inclusion), `bad@n:tok` otherwise.
       c<i> call   o<i> transmit ok   f<i> transmit failed (call returned)   x<i> cancel
       s<i> requester enters its select    R<i>r<k> returned the response made from stanza k
       R<i>c returned the context error    k<i> caller closes the response
-      p<kind><id><r|e|n> peer stanza (n: not a result/error)   H<k> handler got stanza k
+      p<kind><id><r|e|n|g|t>[S] peer stanza (r result, e error; n normal, g get, t set are never
+        looked up; S: explicit other stanza namespace)   H<k> handler got stanza k
       g serve loop enters the hand-off select   h serve loop starts waiting for the close
     C06 rcpt <ids> <trace>      ids `,`-joined, tokens: c o f x s as above, T<i> returned nil,
       R<i>c returned the context error, q<id> receipt for id looked up (and deleted),
@@ -22,18 +23,27 @@ def parseKind (c : Char) : Option Kind :=
 
 def nthD {α} (l : List α) (d : α) (i : Nat) : α := match l[i]? with | some x => x | none => d
 
-def parseReqs (s : String) : Option (List (Kind × Nat)) :=
+def parseNs (s : String) : Option Ns :=
+  if s = "e" then some .empty else if s = "c" then some .stream else if s = "s" then some .other else none
+
+/-- `kind:id[:ns[:api]]` — ns e (none) | c (the stream's) | s (the other stanza namespace);
+the api field (how the harness issued the call) is ignored by the model -/
+def parseReqs (s : String) : Option (List (Kind × Nat × Ns)) :=
   mapM? (fun (f : String) => match f.splitOn ":" with
-    | [k, id] => do
+    | k :: id :: rest => do
       let kc ← k.toList.head?
       let kk ← parseKind kc
       let n ← id.toNat?
-      pure (kk, n)
+      let ns ← match rest with
+        | [] => some Ns.empty
+        | x :: _ => parseNs x
+      pure (kk, n, ns)
     | _ => none) (splitList s)
 
-def mkCfg (reqs : List (Kind × Nat)) : Cfg :=
-  { ids := fun i => (nthD reqs (.iq, 1000 + i) i).2,
-    kinds := fun i => (nthD reqs (.iq, 1000 + i) i).1,
+def mkCfg (reqs : List (Kind × Nat × Ns)) : Cfg :=
+  { ids := fun i => (nthD reqs (.iq, 1000 + i, .empty) i).2.1,
+    kinds := fun i => (nthD reqs (.iq, 1000 + i, .empty) i).1,
+    spaces := fun i => (nthD reqs (.iq, 1000 + i, .empty) i).2.2,
     derived := true }
 
 def steps (cfg : Cfg) (s : St) (as : List Act) : Option St := run cfg s as
@@ -68,12 +78,15 @@ def applyTok (cfg : Cfg) (s : St) (tok : String) : Option St :=
         steps cfg s [.timeout i, .dereg i]
       else none
     | _ => none
-  | 'p' :: kc :: r => do
+  | 'p' :: kc :: r0 => do
     let kind ← parseKind kc
+    -- optional trailing S: the stanza carries the other stanza namespace explicitly
+    let (r, ns) := if r0.getLast? = some 'S' then (r0.dropLast, Ns.other) else (r0, Ns.stream)
     let t ← r.getLast?
     let id ← numOf r.dropLast
-    let resp ← if t = 'r' ∨ t = 'e' then some true else if t = 'n' then some false else none
-    step cfg (settle cfg s) (.read ⟨kind, id, resp⟩)
+    -- r result, e error: looked up;  n normal / g get / t set: never looked up
+    let resp ← if t = 'r' ∨ t = 'e' then some true else if t = 'n' ∨ t = 'g' ∨ t = 't' then some false else none
+    step cfg (settle cfg s) (.read ⟨kind, id, resp, ns⟩)
   | 'H' :: r => do
     let k ← numOf r
     if s.hlog.head? = some k then some s else none
